@@ -64,6 +64,7 @@ type MGrant struct {
 	Redeemed bool
 	Dead     bool
 	Gens     int
+	PARURI   string // request_uri the authorization was started from (flow "par")
 }
 
 type Model struct {
@@ -190,7 +191,19 @@ func histString(h []Op) string {
 func (f *Fam) Enabled() []Op {
 	var ops []Op
 	if len(f.M.Grants) < f.S.MaxGrants {
-		ops = append(ops, f.S.Grants...)
+		for _, g := range f.S.Grants {
+			if g.Flow == "par-again" {
+				// only meaningful once an authorization was started from a pushed request
+				have := false
+				for _, mg := range f.M.Grants {
+					have = have || mg.PARURI != ""
+				}
+				if !have {
+					continue
+				}
+			}
+			ops = append(ops, g)
+		}
 	}
 	for _, g := range f.M.Grants {
 		if g.Code != "" {
@@ -374,13 +387,39 @@ func (f *Fam) applyAuthz(op Op) string {
 		grantedScopes = []string{"offline", "a"}
 		opts.GrantScopes = func(req []string) []string { return without(req, "photos") }
 	}
-	o := w.Authorize(params, opts)
+	var o *Obs
+	parURI := ""
+	switch op.Flow {
+	case "par":
+		// pushed authorization request, then the front-channel leg
+		po := w.PAR(params, w.AuthFor(op.Client))
+		parURI = po.Str("request_uri")
+		if parURI == "" {
+			f.Res.note("sanity:push-refused")
+			return "authz:push:" + po.Class()
+		}
+		o = w.Authorize(url.Values{"client_id": {op.Client}, "request_uri": {parURI}}, opts)
+	case "par-again":
+		// the same request_uri is sent to the authorization endpoint once more (a request_uri is single-use: C17);
+		// should the server start a second authorization from it, that is a grant of its own for this model
+		for _, mg := range f.M.Grants {
+			if mg.PARURI != "" && mg.Client == op.Client {
+				parURI = mg.PARURI
+			}
+		}
+		o = w.Authorize(url.Values{"client_id": {op.Client}, "request_uri": {parURI}}, opts)
+		if o.Param("code") == "" {
+			return "authz:par-again:" + o.Class()
+		}
+	default:
+		o = w.Authorize(params, opts)
+	}
 	code := o.Param("code")
 	if code == "" {
 		f.Res.note("sanity:authorize-refused:" + op.Flow)
 		return "authz:" + o.Class()
 	}
-	g := &MGrant{ID: len(f.M.Grants), Client: op.Client, Subject: sub, Scopes: grantedScopes, Origin: op.Flow,
+	g := &MGrant{ID: len(f.M.Grants), Client: op.Client, Subject: sub, Scopes: grantedScopes, Origin: op.Flow, PARURI: parURI,
 		Code: code, CodeExp: w.Now().Add(w.Cfg.AuthorizeCodeLifespan)}
 	g.CodeName = fmt.Sprintf("code#%d", g.ID+1)
 	f.M.Grants = append(f.M.Grants, g)
